@@ -39,7 +39,12 @@ class JSONCookie(SecureCookie):
         string = string.strip('"')  # this line is for a bug in werkzeug's
                                     # test client cookie jar usage:
                                     # https://github.com/pallets/werkzeug/issues/1060
-        return super(cls, JSONCookie).unserialize(string, secret_key)
+        try:
+            return super(cls, JSONCookie).unserialize(string, secret_key)
+        except ValueError:
+            # malformed base64 in the signature or undecodable keys
+            # (binascii.Error, UnicodeError): not a cookie we signed
+            return cls(None, secret_key, False)
 
     def set_expires(self, epoch_time=NOW):
         """
